@@ -26,7 +26,7 @@ for arg in sys.argv[2:]:
                            capture_output=True, text=True)
         tests = t.stdout.strip().splitlines()[-1] if t.stdout.strip() else "?"
         for c in checks.split(","):
-            env = dict(os.environ, VERIF_REPO=scratch)
+            env = dict(os.environ, VERIF_REPO=scratch, VERIF_EVIDENCE_DIR=scratch + "/.evidence", VERIF_REPLAY_DIR=scratch + "/.replays")
             r = subprocess.run(["/verif/check", c, "--tier", os.environ.get("TIER", "quick")], cwd="/verif", env=env,
                                capture_output=True, text=True)
             clauses = sorted(set(re.findall(r"clause: (\S+)", r.stdout)))
